@@ -327,6 +327,7 @@ func (x *Exec) send(st *State, v *ssa.Send) {
 
 func (x *Exec) recv(st *State, v *ssa.UnOp) {
 	st.recvd[x.toTerm(st, x.get(st, v.X), v.X.Type()).String()] = true
+	st.recvdT = append(st.recvdT, x.toTerm(st, x.get(st, v.X), v.X.Type()))
 	et := v.X.Type().Underlying().(*types.Chan).Elem()
 	val := x.freshValue(st, "recv", et)
 	if v.CommaOk {
@@ -357,6 +358,7 @@ func (x *Exec) selectStmt(st *State, v *ssa.Select) []*State {
 		s.regs[v] = tup
 		if idx >= 0 && idx < len(v.States) && v.States[idx].Dir == types.RecvOnly {
 			s.recvd[x.toTerm(s, x.get(s, v.States[idx].Chan), v.States[idx].Chan.Type()).String()] = true
+			s.recvdT = append(s.recvdT, x.toTerm(s, x.get(s, v.States[idx].Chan), v.States[idx].Chan.Type()))
 		}
 		s.trace = append(s.trace, fmt.Sprintf("%s: select case %d", x.where(v), idx))
 	}
